@@ -654,6 +654,11 @@ func isFreshObject(v ssa.Value) bool {
 		case *ssa.FieldAddr:
 			v = x.X
 			continue
+		case *ssa.IndexAddr: // an element of a local array / freshly made slice (append's varargs)
+			v = x.X
+			continue
+		case *ssa.MakeSlice:
+			return true
 		case *ssa.Phi:
 			all := len(x.Edges) > 0
 			for _, e := range x.Edges {
